@@ -26,6 +26,7 @@ DP = "download_policy"
 
 
 EXPLANATION += ' (R9, round 9) = C12.R3: the download flag of a remote insert is computed from the policy the store holds now, on both ingress paths. R8 also carries the destructor rows of C06.R4.'
+EXPLANATION += " (R10, round 11) = C16.R1 for the policy table: a removed document's policy row is erased."
 
 
 def _str_consts_on_path(body, path):
